@@ -37,6 +37,10 @@ def make_exception(kind, i):
                 super().__init__(a)
                 self.b = b
         return NeedsTwo(f"task {i} failed", 2)
+    if kind == "function-timed-out":
+        # what FineContour.refine raises when its wall-clock limit (option refine_timeout) is exceeded: func_timeout's exception derives from BaseException
+        import func_timeout
+        return func_timeout.FunctionTimedOut(f"task {i} timed out")
     return TaskError(f"task {i} failed")
 
 
